@@ -3,6 +3,7 @@ package main
 // Evaluation of contract expressions against a symbolic state.
 
 import (
+	"os"
 	"fmt"
 	"go/types"
 	"strings"
@@ -745,6 +746,53 @@ func (fx *fnExec) evalCall(e *Expr, env *Env) TV {
 						lbT = fx.evalInt(&Expr{Op: "call", Name: "lowerBound"}, env)
 					}
 					cs = append(cs, fx.pfTerm(TV{v, phi.Type()}, env.cur), fx.withinTerm(TV{v, phi.Type()}, env.cur, lbT, tokPos))
+					// what the loop builds starts where the loop started (or where the value it was
+					// entered with starts): it lies behind everything parsed before the loop
+					if ev, ok := env.entryVals[phi]; ok && env.entryState != nil && os.Getenv("VERIF_NOENTRYBOUND") == "" {
+						if lo, ok := fx.entryLower(TV{ev, phi.Type()}, env); ok {
+							cs = append(cs, fx.withinTerm(TV{v, phi.Type()}, env.cur, lo, tokPos))
+						}
+					}
+				}
+			}
+			// named node values defined before the loop lie before the token at which the loop was entered
+			if env.entryState != nil && os.Getenv("VERIF_NOENTRYBOUND") == "" {
+				entryTok := fx.entryTokPos(env)
+				cs = append(cs, app("<=", entryTok, tokPos)) // the token position never moves back inside the loop
+				for _, name := range sortedKeys(env.fr.names) {
+					for _, val := range env.fr.names[name] {
+						in, isInstr := val.(ssa.Instruction)
+						if !isInstr || in.Block() == env.at || !in.Block().Dominates(env.at) {
+							continue
+						}
+						// only finished nodes: results of calls (a node allocated here may still be under construction)
+						switch cv := val.(type) {
+						case *ssa.Call:
+						case *ssa.Extract:
+							if _, isCall := cv.Tuple.(*ssa.Call); !isCall {
+								continue
+							}
+						default:
+							continue
+						}
+						if li := env.fr.loops[env.at]; li != nil && li.blocks[in.Block()] {
+							continue
+						}
+						v, ok := env.fr.vals[val]
+						if !ok {
+							continue
+						}
+						tv := TV{v, val.Type()}
+						if _, _, _, isRef := refOf(v); !isRef {
+							if _, isSl := v.(SliceV); !isSl {
+								continue
+							}
+						}
+						if lbT == "" {
+							lbT = fx.evalInt(&Expr{Op: "call", Name: "lowerBound"}, env)
+						}
+						cs = append(cs, fx.withinTerm(tv, env.cur, lbT, entryTok))
+					}
 				}
 			}
 		}
@@ -1313,6 +1361,33 @@ func (fx *fnExec) withinTerm(v TV, st *State, lo, hi string) string {
 		return "true"
 	}
 	return or(isNil, and(app("<=", lo, fx.gposOf(st, ref)), app("<=", fx.gposOf(st, ref), fx.gendOf(st, ref)), app("<=", fx.gendOf(st, ref), hi)))
+}
+
+// entryTokPos: p.Lexer.Token.Pos in the state in which the loop was entered.
+func (fx *fnExec) entryTokPos(env *Env) string {
+	e2 := *env
+	e2.cur = env.entryState
+	e2.prevVals = nil
+	return fx.evalInt(&Expr{Op: "sel", Name: "Pos", Args: []*Expr{{Op: "sel", Name: "Token", Args: []*Expr{{Op: "sel", Name: "Lexer", Args: []*Expr{{Op: "id", Name: "p"}}}}}}}, &e2)
+}
+
+// entryLower: the lower bound of a loop-carried node value: the token position at loop entry when the
+// value was nil / empty then, otherwise the start of the value the loop was entered with.
+func (fx *fnExec) entryLower(ev TV, env *Env) (string, bool) {
+	E := fx.entryTokPos(env)
+	switch x := ev.V.(type) {
+	case SliceV:
+		if !fx.g.isNodeRefType(x.Elem) {
+			return "", false
+		}
+		first := fx.elemRef(x, "0")
+		return ite(eq(x.Len, "0"), E, fx.gposOf(env.entryState, first)), true
+	}
+	ref, isNil, _, ok := refOf(ev.V)
+	if !ok || !fx.g.isNodeRefType(ev.T) {
+		return "", false
+	}
+	return ite(isNil, E, fx.gposOf(env.entryState, ref)), true
 }
 
 // spansTerm: exact span of a node reference (nil: true), of a node slice (first element starts at lo,
